@@ -270,11 +270,39 @@ def selections_task(task):
                     got = None if not legal else 'IndexError although a legal deal exists'     # no legal deal: choices() of nothing
                 if got and len(bad) < 4:
                     bad.append(f'ranges {r0} / {r1} board {board}: {got}')
+    # the shares themselves, with every card given (two hole cards, a five-card board... here: three board cards completing five-card
+    # hands): whatever is sampled, they are non-negative and add up to one pot
+    share_bad, m = [], 0
+    if H == 2:
+        import random
+        rng = random.Random(5)
+        wide = list(Deck.STANDARD)[:8]
+        c2 = [tuple(c) for c in itertools.combinations(wide, 2)]
+        for trial in range(task.get('share_trials', 150)):
+            r0 = tuple(rng.sample(c2, rng.choice([1, 2, 3])))
+            r1 = tuple(rng.sample(c2, rng.choice([1, 2, 3])))
+            board = tuple(rng.sample(wide, 3))
+            legal = [sel for sel in itertools.product(r0, r1) if len({c for h in sel for c in h} | set(board)) == 7]
+            if not legal:
+                continue
+            m += 1
+            try:
+                eq = an.calculate_equities((r0, r1), board, 2, 3, wide, (StandardHighHand,), sample_count=5)
+            except Exception as e:   # noqa
+                share_bad.append((r0, r1, board, repr(e)))
+                continue
+            if any(x < -1e-12 for x in eq) or abs(sum(eq) - 1) > 1e-9:
+                if len(share_bad) < 4:
+                    share_bad.append((r0, r1, board, list(eq)))
     meta = {'function': 'pokerkit.analysis.calculate_equities', 'domain': n, 'exhaustive': True,
             'shape': f'pool of {task["pool"]} cards, {H} hole card(s), ranges of 1-2 combinations, boards of 0-2 cards'}
+    standin = None
+    if H == 2:
+        standin = {'label': 'B', 'bound': f'{m} random (ranges, board) inputs with every card given, 5 samples each: shares non-negative, adding up to one',
+                   'evaluations': m, 'failures': share_bad[:4]}
     return {'results': [res(f'C18/calculate_equities/only-legal-deals-are-sampled-with-the-right-stub-deck/h{H}pool{task["pool"]}/E', not bad,
                             f'{n} (ranges, board) inputs; failures: {bad}', 'E', 'CPython-closed', meta, time.time() - t0)],
-            'contract': None}
+            'contract': None, 'task': f'selections/h{H}', **({'standin': standin} if standin else {})}
 
 
 def main(argv=None):
